@@ -161,6 +161,42 @@ def stat_run(spec):
             pe = float(binomtest(nonprod, n, 684 / 720).pvalue)
             check(pe >= P_REJECT, 'entangling fraction %d/%d, expected 684/720 (p=%.3g)' % (nonprod, n, pe), 'entangling-fraction')
         return {'cells': len(counts), 'chi2': stat, 'p': p, 'distinct': distinct}
+    if what in ('clifford-state', 'pauli-state'):
+        # random_*_state(N, r) is the image of a random map: the stabilizer group (with signs) of the drawn state must be uniform over
+        # all rank-r stabilizer states (clifford) / all signed product states (pauli); unseen cells count as zero
+        r = spec['r']
+        k_dim = N - r
+        counts = {}
+        ent = 0
+        for _ in range(n):
+            S = sm.random_clifford_state(N, r) if what == 'clifford-state' else sm.random_pauli_state(N, r)
+            l, k, rr = Bk.read_state(S)
+            why = ref.tableau_invariant(l, k, rr)
+            check(why is None and rr == r, 'random state invalid: %s r=%r' % (why, rr), 'invalid-state')
+            els = set()
+            for sel in range(1, 2 ** k_dim):
+                a = np.zeros(N, dtype=np.int64); b = 0
+                for j in range(k_dim):
+                    if (sel >> j) & 1:
+                        a, b = ref.pmul(a, b, l[r + j], k[r + j])
+                els.add((tuple(a.tolist()), int(b) % 4))
+            key = frozenset(els)
+            counts[key] = counts.get(key, 0) + 1
+        if what == 'clifford-state':
+            # isotropic k-dimensional subspaces of F_2^(2N), times 2^k sign choices
+            num = 1; den = 1
+            for i in range(k_dim):
+                num *= (2 ** (2 * N - i) - 2 ** i); den *= (2 ** k_dim - 2 ** i)
+            ncell = (num // den) * 2 ** k_dim
+        else:
+            # U (1/2)^r x |0..0><0..0| U^dagger with U a product of single-qubit Cliffords: the first r qubits stay mixed, the others are +-X, +-Y, +-Z
+            ncell = 6 ** k_dim
+        check(len(counts) <= ncell, '%s(N=%d,r=%d): %d distinct states seen, only %d exist' % (what, N, r, len(counts), ncell), 'invalid-state')
+        cs = np.array(list(counts.values()) + [0] * (ncell - len(counts)))
+        stat, p = chi2_p(cs, np.full(ncell, n / ncell))
+        check(p >= P_REJECT, 'random_%s(N=%d, r=%d): chi-square %.1f over the %d states of that rank, p=%.3g, %d states never drawn (n=%d)' % (
+            what.replace('-', '_'), N, r, stat, ncell, p, ncell - len(counts), n), 'not-uniform')
+        return {'cells': ncell, 'chi2': stat, 'p': p, 'distinct': set(hash(k) for k in counts)}
     if what == 'pair':
         counts = {}
         for _ in range(n):
@@ -308,7 +344,7 @@ def make_stat_facet(name, be, specs_quick, specs_thorough):
             stats.evals += spec['n']
             for h in info['distinct']:
                 stats.nt_hashes.add((hash((spec['what'], spec['N'])) * 1000003 + h) & 0xFFFFFFFFFFFFFFFF)
-            lab = '%s/N=%d cells=%d' % (spec['what'], spec['N'], info['cells'])
+            lab = '%s/N=%d%s cells=%d' % (spec['what'], spec['N'], ',r=%d' % spec['r'] if 'r' in spec else '', info['cells'])
             stats.labels[lab] = spec['n']
             stats.notes.append('%s N=%d n=%d cells=%d chi2=%.1f p=%.3g' % (spec['what'], spec['N'], spec['n'], info['cells'], info['chi2'], info['p']))
             if len(stats.samples) < 2:
@@ -322,15 +358,22 @@ def make_stat_facet(name, be, specs_quick, specs_thorough):
 
 NPQ = [{'what': 'clifford', 'N': 1, 'n': 24000}, {'what': 'clifford-signed', 'N': 1, 'n': 24000}, {'what': 'clifford', 'N': 2, 'n': 72000},
        {'what': 'pauli-map', 'N': 1, 'n': 12000}, {'what': 'pauli-map', 'N': 2, 'n': 40000}, {'what': 'pair', 'N': 1, 'n': 6000}, {'what': 'pair', 'N': 2, 'n': 24000},
-       {'what': 'signs', 'N': 2, 'n': 10000}, {'what': 'bitstate', 'N': 3, 'n': 10000}, {'what': 'coin', 'N': 2, 'n': 20000}, {'what': 'coin-mixed', 'N': 3, 'n': 12000}, {'what': 'coin-mixed', 'N': 2, 'n': 8000}, {'what': 'resample', 'N': 1, 'n': 10000}, {'what': 'gate-forward', 'N': 2, 'n': 36000}, {'what': 'gate-backward', 'N': 2, 'n': 36000}]
+       {'what': 'signs', 'N': 2, 'n': 10000}, {'what': 'bitstate', 'N': 3, 'n': 10000}, {'what': 'coin', 'N': 2, 'n': 20000}, {'what': 'coin-mixed', 'N': 3, 'n': 12000}, {'what': 'coin-mixed', 'N': 2, 'n': 8000}, {'what': 'resample', 'N': 1, 'n': 10000}, {'what': 'gate-forward', 'N': 2, 'n': 36000}, {'what': 'gate-backward', 'N': 2, 'n': 36000},
+       {'what': 'clifford-state', 'N': 2, 'r': 1, 'n': 6000}, {'what': 'clifford-state', 'N': 2, 'r': 0, 'n': 9000}, {'what': 'clifford-state', 'N': 3, 'r': 1, 'n': 30000},
+       {'what': 'clifford-state', 'N': 3, 'r': 2, 'n': 10000}, {'what': 'pauli-state', 'N': 2, 'r': 1, 'n': 3000}, {'what': 'pauli-state', 'N': 3, 'r': 1, 'n': 8000}]
 NPT = [{'what': 'clifford', 'N': 1, 'n': 240000}, {'what': 'clifford-signed', 'N': 1, 'n': 240000}, {'what': 'clifford', 'N': 2, 'n': 1500000},
        {'what': 'clifford-signed', 'N': 2, 'n': 1200000}, {'what': 'clifford', 'N': 2, 'n': 1500000}, {'what': 'clifford-signed', 'N': 2, 'n': 1200000},
        {'what': 'pauli-map', 'N': 1, 'n': 120000}, {'what': 'pauli-map', 'N': 2, 'n': 600000}, {'what': 'pair', 'N': 1, 'n': 60000}, {'what': 'pair', 'N': 2, 'n': 240000},
        {'what': 'pair', 'N': 3, 'n': 500000}, {'what': 'signs', 'N': 3, 'n': 100000}, {'what': 'bitstate', 'N': 4, 'n': 100000}, {'what': 'coin', 'N': 2, 'n': 400000}, {'what': 'coin-mixed', 'N': 2, 'n': 200000, 'configs': 200}, {'what': 'coin-mixed', 'N': 3, 'n': 300000, 'configs': 300}, {'what': 'coin-mixed', 'N': 4, 'n': 300000, 'configs': 300},
-       {'what': 'resample', 'N': 1, 'n': 200000}, {'what': 'gate-forward', 'N': 2, 'n': 720000}, {'what': 'gate-backward', 'N': 2, 'n': 720000}]
-TQ = [{'what': 'gate-backward', 'N': 2, 'n': 14400}, {'what': 'clifford', 'N': 1, 'n': 6000}, {'what': 'clifford', 'N': 2, 'n': 14400}, {'what': 'pauli-map', 'N': 2, 'n': 40000}, {'what': 'pair', 'N': 2, 'n': 6000}]
+       {'what': 'resample', 'N': 1, 'n': 200000}, {'what': 'gate-forward', 'N': 2, 'n': 720000}, {'what': 'gate-backward', 'N': 2, 'n': 720000},
+       {'what': 'clifford-state', 'N': 2, 'r': 1, 'n': 120000}, {'what': 'clifford-state', 'N': 2, 'r': 0, 'n': 120000}, {'what': 'clifford-state', 'N': 3, 'r': 1, 'n': 400000},
+       {'what': 'clifford-state', 'N': 3, 'r': 2, 'n': 200000}, {'what': 'clifford-state', 'N': 3, 'r': 0, 'n': 400000}, {'what': 'clifford-state', 'N': 4, 'r': 3, 'n': 200000},
+       {'what': 'pauli-state', 'N': 2, 'r': 1, 'n': 60000}, {'what': 'pauli-state', 'N': 3, 'r': 1, 'n': 100000}, {'what': 'pauli-state', 'N': 3, 'r': 0, 'n': 100000}]
+TQ = [{'what': 'gate-backward', 'N': 2, 'n': 14400}, {'what': 'clifford', 'N': 1, 'n': 6000}, {'what': 'clifford', 'N': 2, 'n': 14400}, {'what': 'pauli-map', 'N': 2, 'n': 40000}, {'what': 'pair', 'N': 2, 'n': 6000},
+      {'what': 'clifford-state', 'N': 2, 'r': 1, 'n': 3000}]
 TT = [{'what': 'clifford', 'N': 1, 'n': 60000}, {'what': 'clifford', 'N': 2, 'n': 200000}, {'what': 'clifford-signed', 'N': 1, 'n': 60000},
-      {'what': 'pauli-map', 'N': 2, 'n': 120000}, {'what': 'pair', 'N': 2, 'n': 60000}, {'what': 'signs', 'N': 2, 'n': 40000}]
+      {'what': 'pauli-map', 'N': 2, 'n': 120000}, {'what': 'pair', 'N': 2, 'n': 60000}, {'what': 'signs', 'N': 2, 'n': 40000},
+      {'what': 'clifford-state', 'N': 2, 'r': 1, 'n': 30000}, {'what': 'clifford-state', 'N': 3, 'r': 1, 'n': 60000}, {'what': 'pauli-state', 'N': 2, 'r': 1, 'n': 20000}]
 
 NP_KINDS = ['clifford_map', 'pauli_map', 'clifford_state', 'pauli_state', 'bit_state', 'brickwall', 'onsite', 'global']
 T_KINDS = ['clifford_map', 'pauli_map', 'clifford_state', 'pauli_state', 'brickwall', 'onsite', 'global']
